@@ -97,7 +97,7 @@ func c16Build(cs c16Case) geom.T {
 	switch cs.Build {
 	case "setcoords":
 		t = g.MustBuild()
-	case "flatcap", "emptyslices":
+	case "flatcap", "emptyslices", "shortend":
 		flat, ends, endss := g.Flat()
 		extra := g.Layout.Stride() + 1
 		if cs.Build == "emptyslices" {
@@ -142,6 +142,19 @@ func c16Build(cs c16Case) geom.T {
 			t = geom.NewMultiPointFlat(g.Layout, flat, geom.NewMultiPointFlatOptionWithEnds(ends))
 		case ref.MultiPolygon:
 			t = geom.NewMultiPolygonFlat(g.Layout, flat, endss)
+		}
+	}
+	if cs.Build == "shortend" {
+		// the caller wrote a smaller last end offset through Ends()/Endss() (one of the mutations the
+		// property names) BEFORE cloning: one coordinate now lies behind the last end
+		st := g.Layout.Stride()
+		if e := t.Ends(); len(e) > 0 && e[len(e)-1] >= st && (len(e) == 1 || e[len(e)-1]-st >= e[len(e)-2]) {
+			e[len(e)-1] -= st
+		}
+		if ee := t.Endss(); len(ee) > 0 {
+			if e := ee[len(ee)-1]; len(e) > 0 && e[len(e)-1] >= st && (len(e) == 1 || e[len(e)-1]-st >= e[len(e)-2]) {
+				e[len(e)-1] -= st
+			}
 		}
 	}
 	if _, err := geom.SetSRID(t, 4326); err != nil {
@@ -319,14 +332,14 @@ func c16Exec(c *engine.Ctx, cs c16Case) {
 				fail("header", fmt.Sprintf("clone layout/stride/srid %v/%d/%d, original %v/%d/%d", b.Layout(), b.Stride(), b.SRID(), a.Layout(), a.Stride(), a.SRID()))
 				return
 			}
-			if a.Layout() == geom.NoLayout {
+			if a.Layout() == geom.NoLayout || cs.Build == "shortend" {
 				// nested coordinates are not read for a geometry without a layout (Coords() divides
 				// by the stride; DESIGN.md section 7, item 1): the structure is compared through the flat accessors
 				if structKey(a) != structKey(b) {
 					fail("unequal", fmt.Sprintf("clone differs from original: %s vs %s", structKey(b), structKey(a)))
 					return
 				}
-				if err := ref.WellFormed(b); err != nil {
+				if err := ref.WellFormed(b); err != nil && cs.Build != "shortend" {
 					fail("ill-formed", err.Error())
 				}
 				return
@@ -570,6 +583,9 @@ func c16Run(c *engine.Ctx) {
 	c.Note("histories_per_geometry", len(hist))
 	c.Parallel(len(bases), func(i int) {
 		g := bases[i]
+		if g.NumOrdinates() > 0 && g.Layout != geom.NoLayout {
+			c16Exec(c, c16Case{G: g, Build: "shortend"})
+		}
 		for _, build := range []string{"setcoords", "flatcap", "emptyslices"} {
 			if build == "emptyslices" && g.NumOrdinates() > 0 {
 				continue
